@@ -69,6 +69,7 @@ class Msg:
         self.both = both
         self.te_first = te_first      # with both framing headers: Transfer-Encoding comes before Content-Length
         self.upgrade_tail = upgrade_tail
+        self.hsep = ": "              # between a header's name and its raw value on the wire
 
     def build(self, c, m):
         url = "/c%dm%d%s" % (c, m, self.target_suffix)
@@ -98,7 +99,7 @@ class Msg:
         else:
             head = ("%s %s HTTP/%s\r\n" % (self.method, url, self.version)).encode()
             for n, v in hdrs:
-                head += ("%s: %s\r\n" % (n, v)).encode("latin1")
+                head += ("%s%s%s\r\n" % (n, self.hsep, v)).encode("latin1")
             head += b"\r\n"
         if self.framing == "chunked":
             wire_body = chunk_encode(body, self.chunks, **self.chunk_opts)
